@@ -486,6 +486,11 @@ def run(tier):
     contracts.check_hex_digit(cctx, _lib)
     contracts.check_val(cctx, _lib)
     contracts.check_hex_length(cctx, _lib)
+    # string values keep their length: under -s 80 every string the expression's value passes through (temporaries of
+    # converted functions included) is declared with 80 characters
+    from vf.props import c03 as _c03
+
+    _c03.capacity(ctx, [("strexpr:" + e, tpl.format(e=e)) for e in str_family() for tpl in ("10 Z$ = {e}", '10 Z$ = "AB" + {e}', "10 PRINT {e}", '10 IF {e} = "A" THEN Z = 1')])
     # INSTR and STRING$ (part of "the numeric and string built-in functions"): the C20 obligations on the library text
     from vf.props import c20 as _c20
 
